@@ -91,6 +91,21 @@ func (c *Ctx) c03InterfaceRoute(pj *simdjson.ParsedJson, pc *PCase) {
 			}
 		}
 		c.Ev.Dist("interface-route")
+		// the same position through an iterator cut to the element (Object.Parse / NextElementBytes /
+		// AdvanceIter): type, value and float flags as through the walking iterator
+		if er, ok := iterByPathMode(pj, p.Path, c.Rng.Intn(1<<10), true); ok {
+			w := iterAt(pj, p.K)
+			describe := func(x simdjson.Iter) string {
+				a, b := x, x
+				f, fl, e1 := a.FloatFlags()
+				v, e2 := b.Interface()
+				return fmt.Sprintf("%v|%016x|%v|%v|%T:%v|%v", x.Type(), math.Float64bits(f), fl, e1 != nil, v, v, e2 != nil)
+			}
+			if g, wnt := describe(er), describe(w); g != wnt {
+				c.Violate("document", "a number read through an iterator cut to the element (Object.Parse / NextElementBytes / AdvanceIter) differs from the same position read through the walking iterator", "element-route-number",
+					map[string]interface{}{"doc_hex": fmt.Sprintf("%x", pc.Doc), "doc_text": printable(pc.Doc), "stream": pc.Stream, "element_route": g, "walking": wnt})
+			}
+		}
 		if got != want {
 			c.Violate("document", "Interface() exposes the number with another type or value than the typed accessor of the same position", "iface-number",
 				map[string]interface{}{"doc_hex": fmt.Sprintf("%x", pc.Doc), "doc_text": printable(pc.Doc), "stream": pc.Stream, "interface": got, "typed": want})
